@@ -43,6 +43,7 @@ type Program struct {
 	memoLitHelpers  map[string]*ssa.Function
 	memoArithParams map[*ssa.Parameter]bool
 	memoLoopHeaders map[*ssa.Function]map[*ssa.BasicBlock]bool
+	memoRoleMap     *roleMap
 }
 
 // programs maps an SSA program back to its Program while it is being analysed.
@@ -314,6 +315,9 @@ func (p *Program) Pos(pos token.Pos) string {
 // Func finds a package-level function or method by name: "parser.precedence",
 // "parser.(*parser).expression", "evaluator.(*evaluator).evaluate".
 func (p *Program) Func(pk *packages.Package, recv, name string) *ssa.Function {
+	if fn := p.RoleFunc(pk.Name, recv, name); fn != nil {
+		return fn
+	}
 	sp := p.SSAPkg[pk]
 	if recv == "" {
 		return sp.Func(name)
@@ -339,6 +343,11 @@ func (p *Program) Func(pk *packages.Package, recv, name string) *ssa.Function {
 
 // FuncDecl finds the syntax of a function or method declared in pk.
 func (p *Program) FuncDecl(pk *packages.Package, recv, name string) *ast.FuncDecl {
+	if fn := p.RoleFunc(pk.Name, recv, name); fn != nil {
+		if fd := declOf(fn); fd != nil {
+			return fd
+		}
+	}
 	for _, f := range pk.Syntax {
 		for _, d := range f.Decls {
 			fd, ok := d.(*ast.FuncDecl)
@@ -395,7 +404,14 @@ func (p *Program) lessPos(a, b token.Pos) bool {
 }
 
 // DeclName gives "recv.name" or "name" for a declaration.
+// declCanonical: function declarations that bear a canonical (role) name, filled by Program.roles for the program
+// being analysed and removed when its analysis ends.
+var declCanonical sync.Map
+
 func DeclName(fd *ast.FuncDecl) string {
+	if c, ok := declCanonical.Load(fd); ok {
+		return c.(string)
+	}
 	if fd.Recv != nil && len(fd.Recv.List) == 1 {
 		t := fd.Recv.List[0].Type
 		if s, ok := t.(*ast.StarExpr); ok {
@@ -416,6 +432,11 @@ func (p *Program) ReachDecl(fd *ast.FuncDecl) bool {
 
 // FuncName gives a short stable name for an SSA function: pkg.recv.name or pkg.name$1.
 func (p *Program) FuncName(fn *ssa.Function) string {
+	if fn.Parent() == nil {
+		if c, ok := p.roles().canon[fn]; ok {
+			return c
+		}
+	}
 	pk := p.PkgOf(fn)
 	prefix := ""
 	if pk != nil {
@@ -430,6 +451,9 @@ func (p *Program) FuncName(fn *ssa.Function) string {
 			t = pt.Elem()
 		}
 		if n, ok := t.(*types.Named); ok {
+			if c, ok := p.roles().recv[n]; ok {
+				return prefix + c + "." + fn.Name()
+			}
 			return prefix + n.Obj().Name() + "." + fn.Name()
 		}
 	}
